@@ -72,7 +72,7 @@ mod imp {
     }
 
     /// token_decision ops (times in integer microseconds since `UNIX_EPOCH`):
-    ///   op 0 must be [0, retry_token_lifetime, validation_token_lifetime]               -> [0]
+    ///   op 0 should be [0, retry_token_lifetime, validation_token_lifetime]             -> [0]
     ///   [1, kind (0 Retry / 1 Validation), key_id (0 = the server's key, 1 = another key),
     ///       addr_id, port, issued, nonce_hi, nonce_lo, cid_len, cid...]
     ///         `Token::encode` of that payload under that key; the bytes are stored as token
@@ -82,6 +82,7 @@ mod imp {
     ///         destination CID `dcid` from `from_addr:from_port` to `IncomingToken::from_header`
     ///         -> [1]  InvalidRetryTokenError
     ///          | [0, validated, retry_src_cid length or -1, bytes..., orig_dst_cid length, bytes...]
+    ///       (an unknown token number presents empty bytes; impossible mutations leave the bytes alone)
     ///       mutation: 0 none | 1 flip bit `arg` | 2 truncate to `arg` bytes | 3 append 1 + arg%3
     ///       bytes of value arg | 4 sealed part of token_no + nonce part of token `arg` |
     ///       5 `arg` bytes of garbage
@@ -91,14 +92,19 @@ mod imp {
         cfg.time_source(Arc::new(MockTime(clock.clone())));
         let mut tokens: Vec<Vec<u8>> = Vec::new();
         let mut outs = Vec::new();
+        let configure = |cfg: &mut ServerConfig, rl: i128, vl: i128| {
+            cfg.retry_token_lifetime(Duration::from_micros(rl as u64));
+            let mut v = ValidationTokenConfig::default();
+            v.lifetime(Duration::from_micros(vl as u64));
+            v.log(Arc::new(BloomTokenLog::new(1 << 20, 7)));
+            cfg.validation_token_config(v);
+        };
+        // without a configuration op the case runs as if op 0 were [0, 0, 0]
+        configure(&mut cfg, 0, 0);
         for (i, op) in ops.iter().enumerate() {
             let o = match op[0] {
                 0 if i == 0 => {
-                    cfg.retry_token_lifetime(Duration::from_micros(op[1] as u64));
-                    let mut v = ValidationTokenConfig::default();
-                    v.lifetime(Duration::from_micros(op[2] as u64));
-                    v.log(Arc::new(BloomTokenLog::new(1 << 20, 7)));
-                    cfg.validation_token_config(v);
+                    configure(&mut cfg, op[1], op[2]);
                     vec![0]
                 }
                 1 => {
@@ -126,7 +132,9 @@ mod imp {
                         1 => {
                             let mut b = base;
                             let k = arg as usize;
-                            b[k / 8] ^= 1 << (k % 8);
+                            if k / 8 < b.len() {
+                                b[k / 8] ^= 1 << (k % 8);
+                            }
                             b
                         }
                         2 => base[..(arg as usize).min(base.len())].to_vec(),
@@ -137,9 +145,13 @@ mod imp {
                         }
                         4 => {
                             let other = tokens.get(arg as usize).cloned().unwrap_or_default();
-                            let mut b = base[..base.len() - 16].to_vec();
-                            b.extend_from_slice(&other[other.len() - 16..]);
-                            b
+                            if base.len() < 16 || other.len() < 16 {
+                                base
+                            } else {
+                                let mut b = base[..base.len() - 16].to_vec();
+                                b.extend_from_slice(&other[other.len() - 16..]);
+                                b
+                            }
                         }
                         5 => (0..arg).map(|j| (j * 37 + arg) as u8).collect(),
                         _ => base,
